@@ -2,7 +2,7 @@
    the template scan, sufficiency of the advertised buffer, buffer <= extent, refusal of undersized buffers.  Statements are
    re-exported by Properties/C05.v. *)
 From Coq Require Import List NArith ZArith Bool Lia.
-From Verif Require Import Str Wire WireThm WireThmValid Walker MetaC05Base Gen_C05 MetaC05.
+From Verif Require Import Str Wire WireThm WireThmValid Walker WalkerSafe WalkerSafeThm MetaC05Base Gen_C05 MetaC05.
 Import ListNotations.
 Local Open Scope Z_scope.
 
@@ -228,20 +228,18 @@ Proof.
 Qed.
 
 (* ---- undersized buffers ---- *)
-Lemma walk_ser_st_fst P t v buf cap : fst (walk_ser_st P t v buf cap) = walk_ser P t v buf cap.
+(* "nothing written" is C04's theorem about the instrumented walker (Codec/WalkerSafe.v: the access log is empty) *)
+Theorem too_small_refused : forall tg P c t v o buf cap q, In tg buffer_targets -> is_comp t = true ->
+  exported tg KBufferBytes t = Some q -> Z.of_nat cap < q -> up_front c = true ->
+  ser_spec t v cap = Err ETooSmall /\ walk_ser P t v buf cap = Err ETooSmall /\ walk_ser_safe c t o cap = (Err ETooSmall, []).
 Proof.
-  unfold walk_ser_st, walk_ser. destruct (8 * cap <? bmax t)%nat; [reflexivity|].
-  destruct (ws_body P t v buf 0) as [[b o]|e]; reflexivity.
-Qed.
-
-Theorem too_small_refused : forall tg P t v buf cap q, In tg buffer_targets -> is_comp t = true ->
-  exported tg KBufferBytes t = Some q -> Z.of_nat cap < q ->
-  ser_spec t v cap = Err ETooSmall /\ walk_ser P t v buf cap = Err ETooSmall /\ walk_ser_st P t v buf cap = (Err ETooSmall, Some buf).
-Proof.
-  intros tg P t v buf cap q Htg Hc Hq Hlt.
+  intros tg P c t v o buf cap q Htg Hc Hq Hlt Hup.
   destruct (exported_buffer_bytes tg t Htg Hc) as [q' [Hq' H8]]. rewrite Hq in Hq'. injection Hq' as <-.
   assert (Hcap : (8 * cap < bmax t)%nat) by lia.
-  unfold ser_spec, walk_ser, walk_ser_st. destruct (Nat.ltb_spec (8 * cap) (bmax t)); [|lia]. repeat split.
+  split; [|split].
+  - unfold ser_spec. destruct (Nat.ltb_spec (8 * cap) (bmax t)); [reflexivity|lia].
+  - unfold walk_ser. destruct (Nat.ltb_spec (8 * cap) (bmax t)); [reflexivity|lia].
+  - apply too_small_no_write; assumption.
 Qed.
 
 Theorem too_small_iff : forall tg t v cap q, In tg buffer_targets -> is_comp t = true ->
